@@ -512,6 +512,9 @@ func init() {
 			sources := []struct{ c, nav string }{
 				{"[.]", ".[0]"}, {"{a: .}", ".a"}, {"[.[]?]", ".[0]"}, {"map(.)?", ".[0]"}, {"(keys? // [0])", ".[0]"}, {"(to_entries? // [0])", ".[0]"}, {"tojson", ".[0:1]"}, {"((. + [1])? // [1])", ".[0]"}, {"[1, 2]", ".[1]"}, {"{\"a\": 1}", ".a"},
 				{"[.]", ".[]"}, {"{a: .}", ".[]"}, {"[[1]]", ".[0][0]"}, {"{a: {b: 1}}", ".a.b"}, {"[.]", ".[0:1]"}, {"\"zzz\"", ".[0:1]"}, {"[., .]", "first"}, {"[.]", "last"}, {"{a: [.]}", ".a[0]"}, {"[1, [2]]", ".[1][0]"}, {"[.]", "getpath([0])"}, {"{a: .}", "getpath([\"a\"])"},
+				// empty constructed containers: there is nothing to iterate, but the navigation is just as invalid
+				{"[]", ".[]"}, {"{}", ".[]"}, {"[empty]", ".[]"}, {"[]", ".[0]"}, {"{}", ".a"}, {"[]", ".[1:]"}, {"[.[]? | select(false)]", ".[]"}, {"(map(select(false))? // [])", ".[]"}, {"({} | with_entries(.))", ".[]"},
+				{"[[]]", ".[0][]"}, {"{a: []}", ".a[]"}, {"{a: {}}", ".a[]"}, {"[]", "first(.[])"}, {"[]", ".[]?, .[]"}, {"(. as $x | [])", ".[]"}, {"[limit(0; 1)]", ".[]"},
 			}
 			ctxs := []string{"path(%s | %s)", "[paths] | length | path(%s | %s)?, (%s | %s) |= 1", "(%s | %s) |= 1", "(%s | %s) = 1", "del(%s | %s)", "(%s | %s) += 1", "[path(.. | %s | %s)]", "path(.[]? | %s | %s)", "path(first(%s) | %s)", "path(if true then %s else . end | %s)", "try ((%s | %s) |= 1) catch error", "path((., %s) | %s) | select(length > 5)"}
 			for _, s := range sources {
